@@ -96,8 +96,16 @@ def gen_case(seed: int, tier: str, index: int) -> Dict[str, Any]:
         # only the serialisation of whole transfers keeps one caller from assembling the other's chain
         for _ in range(rng.choice([1, 2])):
             a, b = _draw_range(rng), _draw_range(rng)
-            plan.insert(rng.randrange(len(plan) + 1), {"op": "pair", "ranges": [list(a), list(b)], "offset": rng.choice([0.0, 0.0, 0.001, 0.01, 0.05, 0.11, 0.3]),
-                                                       "block": rng.choice(["random", "mutsnap"]), "bseed": rng.getrandbits(32), "retries": rng.choice([10, 3, 2])})
+            at = rng.randrange(len(plan) + 1)
+            pair = {"op": "pair", "ranges": [list(a), list(b)], "offset": rng.choice([0.0, 0.0, 0.001, 0.01, 0.05, 0.11, 0.3]),
+                    "block": rng.choice(["random", "mutsnap"]), "bseed": rng.getrandbits(32), "retries": rng.choice([10, 3, 2])}
+            if rng.random() < 0.5:
+                # a third user of the connection (a ping or a watercare query) queues behind the first transfer and its caller gives up
+                # while it still waits: an abandoned waiter must leave the exchange in progress alone
+                pair["bystander"] = {"kind": rng.choice(["ping", "ping", "watercare"]), "after": rng.choice([0.0, 0.0, 0.001, 0.02]),
+                                     "give_up": rng.choice([0.0, 0.01, 0.05, 0.12, 0.3, 0.32, 0.34, 0.5]),
+                                     "how": rng.choice(["wait_for", "cancel"]), "before_second": rng.random() < 0.6}
+            plan.insert(at, pair)
     return {"property": PROP, "world": "A", "seed": seed, "cfg": cfg, "plan": plan}
 
 
@@ -377,10 +385,52 @@ async def run_pair(world: WorldA, ti: int, op: Dict[str, Any], spa, struct, prot
     (s1, l1), (s2, l2) = op["ranges"]
     t1 = asyncio.ensure_future(call(s1, l1))
     t1.set_name("HARNESS:get-a")
+    by = op.get("bystander")
+    tw = None
+
+    async def bystander():
+        from geckolib.driver import GeckoPingProtocolHandler
+
+        await asyncio.sleep(by["after"])
+        if by["kind"] == "ping":
+            inner = protocol.get(lambda: GeckoPingProtocolHandler.request(parms=spa.sendparms), None, 1)
+        else:
+            # (not another status-block request: abandoned after it was sent, its reply would be a stale chain under way during the next
+            #  transfer, which the statement excludes)
+            from geckolib.driver import GeckoWatercareProtocolHandler
+
+            inner = protocol.get(lambda: GeckoWatercareProtocolHandler.request(
+                protocol.get_and_increment_sequence_counter(False), parms=spa.sendparms), None, 1)
+        waiting_at_start = protocol.Lock.locked()
+        if by["how"] == "wait_for":
+            try:
+                await asyncio.wait_for(inner, by["give_up"] or 0.0001)
+            except asyncio.TimeoutError:
+                if waiting_at_start:
+                    res.probe("abandoned_waiter_on_busy_connection")
+        else:
+            t = asyncio.ensure_future(inner)
+            t.set_name("HARNESS:bystander-inner")
+            await asyncio.sleep(by["give_up"])
+            if not t.done():
+                t.cancel()
+                if waiting_at_start:
+                    res.probe("abandoned_waiter_on_busy_connection")
+            try:
+                await t
+            except asyncio.CancelledError:
+                pass
+
+    if by and by["before_second"]:
+        tw = asyncio.ensure_future(bystander())
+        tw.set_name("HARNESS:bystander")
     if op["offset"]:
         await asyncio.sleep(op["offset"])
     t2 = asyncio.ensure_future(call(s2, l2))
     t2.set_name("HARNESS:get-b")
+    if by and not by["before_second"]:
+        tw = asyncio.ensure_future(bystander())
+        tw.set_name("HARNESS:bystander")
     pending = {t1, t2}
     while pending:
         _, pending = await asyncio.wait(pending, timeout=1.0)
@@ -396,8 +446,18 @@ async def run_pair(world: WorldA, ti: int, op: Dict[str, Any], spa, struct, prot
     except Exception as e:
         world.violate(PROP, "transfer-raised", f"pair#{ti} ranges={op['ranges']}: a call neither succeeded nor reported failure, it raised "
                       f"{type(e).__name__}: {e}", sig="transfer-raised:" + type(e).__name__)
+    if tw is not None:
+        try:
+            await asyncio.wait_for(tw, 60.0)
+        except asyncio.TimeoutError:
+            world.violate(PROP, "transfer-raised", f"pair#{ti}: the abandoned third caller had not finished 60s after both transfers", sig="bystander-stuck")
+        except asyncio.CancelledError:
+            raise
+        except Exception as e:
+            world.violate(PROP, "transfer-raised", f"pair#{ti} ranges={op['ranges']} bystander={by}: the third caller's request raised {type(e).__name__}: {e}",
+                          sig="transfer-raised:bystander:" + type(e).__name__)
     new = struct.status_block
-    ctx = f"pair#{ti} ranges={op['ranges']} offset={op['offset']} retries={retries} profile={cfg['profile']} results={bool(ok1)},{bool(ok2)}"
+    ctx = f"pair#{ti} ranges={op['ranges']} offset={op['offset']} retries={retries} profile={cfg['profile']} results={bool(ok1)},{bool(ok2)} bystander={by}"
     res.probe("concurrent_transfers")
     res.stats["transfers"] = res.stats.get("transfers", 0) + 2
     n_ok = int(bool(ok1)) + int(bool(ok2))
@@ -453,7 +513,7 @@ ASSUMPTIONS = [
     "the spa block is constant during one transfer",
     "SimLoop runs ready callbacks FIFO and timers in deadline order, like CPython's loop",
 ]
-PROBES = ["concurrent_transfers", "lost_segment", "lost_final_segment", "dup_segment", "dup_final_segment", "reordered_segments",
+PROBES = ["concurrent_transfers", "abandoned_waiter_on_busy_connection", "lost_segment", "lost_final_segment", "dup_segment", "dup_final_segment", "reordered_segments",
           "succeeded_on_attempt_ge3", "all_attempts_failed", "over_read", "length_multiple_of_39"]
 EXHAUSTIVE = {"quick": False, "thorough": False}
 N_QUICK = 3000
